@@ -35,6 +35,16 @@ fn main() {
             if back != b || s.is_negative() { Some(format!("{a} until {b} (2 h later) = {s:?}; a + s = {back}")) } else { None }
         });
     }
+    if on("F23") {
+        run("F23", || {
+            let a: Zoned = "2024-11-01T01:30:00-04:00[America/New_York]".parse().ok()?;
+            let b: Zoned = "2024-11-03T01:20:00-05:00[America/New_York]".parse().ok()?;   // the second 01:20 of the fall-back day
+            let s = a.until((Unit::Day, &b)).ok()?;
+            let two_days = a.checked_add(jiff::Span::new().days(2)).ok()?;
+            // balanced would mean: one more whole day would pass b.  It does not: a + 2d <= b.
+            if s.get_days() == 1 && two_days <= b { Some(format!("{a} until {b} = {s:?}, but a + 2d = {two_days} is still <= b (balanced result: 2d 50m)")) } else { None }
+        });
+    }
     if on("F8") {
         run("F8", || {
             let tz = TimeZone::posix("EST5EDT,0/0,J365/25").ok()?;
